@@ -202,6 +202,66 @@ func registerMoreIntrinsics() {
 	in["(internal/reflectlite.rtype).String"] = func(fr *frame, a []Value) Value {
 		return fr.x.strConst(a[0].(Struct)[0].(*Opaque).what)
 	}
+	// net/http Header: exact-key map access (harnesses use canonical keys)
+	in["(net/http.Header).Get"] = func(fr *frame, a []Value) Value {
+		x := fr.x
+		m, _ := a[0].(*Map)
+		if m == nil {
+			return Str{}
+		}
+		for _, e := range m.entries {
+			if x.decide(fr, x.strEq(e.k.(Str), a[1].(Str))) {
+				if sl, ok := e.v.(Slice); ok && len(sl.v) > 0 {
+					return sl.v[0]
+				}
+				return Str{}
+			}
+		}
+		return Str{}
+	}
+	in["(net/http.Header).Set"] = func(fr *frame, a []Value) Value {
+		x := fr.x
+		m, _ := a[0].(*Map)
+		if m == nil {
+			x.runtimePanic(fr, "assignment to entry in nil map")
+		}
+		x.mapUpdate(fr, m, a[1], Slice{v: []Value{a[2]}})
+		return nil
+	}
+	in["(*net/url.URL).String"] = func(fr *frame, a []Value) Value {
+		// abstract: the URL's text is its Path field (a function of that request's own URL)
+		p := a[0].(*Value)
+		st := (*p).(Struct)
+		for _, f := range st {
+			if s, ok := f.(Str); ok && len(s.b) > 0 {
+				return s
+			}
+		}
+		return Str{}
+	}
+	in["github.com/rs/xid.New"] = func(fr *frame, a []Value) Value {
+		x := fr.x
+		arr := make(Array, 12)
+		for i := range arr {
+			arr[i] = x.nondet("u8", 8, "xid")
+		}
+		return arr
+	}
+	in["(github.com/rs/xid.ID).String"] = func(fr *frame, a []Value) Value {
+		x := fr.x
+		arr := a[0].(Array)
+		args := make([]*Term, len(arr))
+		for i := range arr {
+			args[i] = arr[i].(*Term)
+		}
+		u := x.f.UF("tok_xid", 8, args...)
+		return Str{[]*Term{x.f.Bin(OpAdd, x.f.Const(8, 'a'), x.f.Bin(OpURem, u, x.f.Const(8, 26)))}}
+	}
+	in["(*strings.Builder).copyCheck"] = func(fr *frame, a []Value) Value { return nil }
+	in["internal/abi.NoEscape"] = func(fr *frame, a []Value) Value { return a[0] }
+	in["strings.noescape"] = func(fr *frame, a []Value) Value { return a[0] }
+	in["unsafe.String"] = nil
+	delete(in, "unsafe.String")
 	in["runtime.Caller"] = inRuntimeCaller
 	in[zz+"Here"] = func(fr *frame, a []Value) Value {
 		x := fr.x
